@@ -18,6 +18,12 @@ func StringContainsAny(s string, l []string) bool {
 // encountered substring. If no match is encountered an empty string is returned.
 func StringContainsAnySubStrs(s string, l []string) string {
 	for _, ss := range l {
+		if ss == "" {
+			// every string "contains" the empty string, and an empty return value means "no match",
+			// so an empty entry can never be a match -- skip it rather than stopping at it.
+			continue
+		}
+
 		if strings.Contains(s, ss) {
 			return ss
 		}
